@@ -510,6 +510,13 @@ pub async fn run(a: &Args) -> Report {
             if has_panic(&s.log, s.exited) || s.exited.is_some() {
                 rep.violation(format!("C16|server|{}|{:?}|does-not-start", proto.name(), via), "documented configuration does not start".to_string(), json!({"log": s.log, "exit": s.exited}));
             } else {
+                // the transport sections say HOW the stream side is spoken; a UDP socket (the QUIC endpoint) belongs to the
+                // quic section alone
+                let got = (s.tcp.contains(&port), s.udp.contains(&port));
+                rep.mon("socket_sets_compared", 1);
+                if got != (true, quic) {
+                    rep.violation(format!("C16|server|{}|{:?}|listens tcp={} udp={}", proto.name(), via, got.0, got.1), format!("{} server with sections {:?}: sockets differ from the documented set (tcp, and udp only with a quic section)", proto.name(), via), json!({"log": s.log, "ssl": ssl, "ws": ws, "quic": quic}));
+                }
                 match canary_via(&cfg, port, via, &mut rng).await {
                     Ok(()) => rep.mon("transport_canaries_ok", 1),
                     Err(e) => rep.violation(format!("C16|server|{}|{:?}|reference-client-not-served:{}", proto.name(), via, crate::panicmon::normalise(&e)), format!("{} server: a reference client over {:?} is not served: {e}", proto.name(), via), json!({"log": s.node.log_tail(6)})),
